@@ -6,7 +6,7 @@ import glob, json, os, re, subprocess, sys, time
 
 WT = "/tmp/wt_detect"
 OUT = "/tmp/detect_out"
-EXTRA = {"C19": ["C09", "C05"], "C10": [], "C18": ["C05"], "C05": ["C19"]}
+EXTRA = {"C19": ["C09", "C05"], "C10": ["C15", "C08", "C09"], "C15": ["C08"], "C18": ["C05"], "C05": ["C19"]}
 
 
 def sh(cmd, cwd=None, env=None, timeout=3600):
